@@ -5,7 +5,7 @@ is how the catch table in DESIGN.md is produced.  Usage: tools/run_seeded.py [ID
 import json, os, subprocess, sys, time
 V = os.path.join(os.path.dirname(os.path.abspath(__file__)), "..")
 S = os.path.join(V, "seeded")
-names = sys.argv[1:] or sorted(d for d in os.listdir(S) if os.path.isdir(os.path.join(S, d)))
+names = sys.argv[1:] or sorted(d for d in os.listdir(S) if os.path.isfile(os.path.join(S, d, "patch.diff")))
 rows = []
 for n in names:
     pid = n.split("-")[0]
